@@ -155,6 +155,21 @@ where
     }
 }
 
+#[cfg(feature = "verif-hooks")]
+impl<State, Timeline, TimelineMap> MappedTimelineAnimator<State, Timeline, TimelineMap>
+where
+    State: Clone + PartialEq,
+    Timeline: crate::timeline::Timeline,
+    Timeline::Target: Clone,
+    TimelineMap: MapLike<State, MergedTimeline<Timeline>>,
+{
+    /// Read-only snapshot of the time spent in the current state and the remembered pause, for
+    /// external monitors. Only available with the `verif-hooks` feature.
+    pub fn verif_snapshot(&self) -> (Duration, Option<(State, Duration)>) {
+        (self.state_duration, self.paused_animation.clone())
+    }
+}
+
 impl<State, Timeline, TimelineMap> StateAnimator
     for MappedTimelineAnimator<State, Timeline, TimelineMap>
 where
